@@ -1,4 +1,5 @@
 import ThruVerif.Model.Hub
+import ThruVerif.Gen.Shapes
 /-!
 # C11 — the signaling hub survives any interleaving of join, leave and send
 -/
@@ -1336,5 +1337,18 @@ def demoState2 : St := run (TV.Hub.init 256 demoProgs2)
 example : Reachable 256 demoProgs2 demoState2 := reachable_run _ _ _
 example : (∀ th ∈ demoState2.threads, th.pc = .idle) ∧ demoState2.gone = [1, 3, 2] ∧ demoState2.reg = [] ∧
     demoState2.results = [.sent 1 1 1 true] ∧ demoState2.inbox = [⟨2, 1, 5⟩] := by decide
+
+/-! ## the decision structure of the source, as regenerated on this run (xlate, `Gen/Shapes.lean`) -/
+
+open TV.Gen.Shapes in
+/-- `Add` with its `remove` closure (replacement test, still-registered test, index ownership test, GC of the *current* empty map),
+`SendTo`, `BroadcastExcept`, `CloseSession`: every `if` condition in source order -/
+theorem C11_source_shapes :
+    hub_add_and_remove = ["err != nil", "h.sessions[sessionID] == nil", "h.byPeerID[sessionID] == nil", "exists && oldConnID != p.ConnID",
+      "exists && oldConnID != p.ConnID ; ok", "!exists", "!stillExists", "exists", "exists ; peerIDMap[p.PeerID] == p.ConnID",
+      "ok && len(current) == 0"] ∧
+    hub_sendto = ["!exists", "!exists", "!exists"] ∧
+    hub_bcast_except = ["!exists", "exists", "connID == exceptConnID"] ∧
+    hub_close_session = ["!exists"] := by decide
 
 end TV.C11
